@@ -407,6 +407,44 @@ func (g *G) Txn(db *ref.DB) []ref.Op {
 				}
 				op.Rows = append(op.Rows, r)
 			}
+			// the all-zero uuid and the unset uuid are one value inside the library:
+			// columns where it occurs are not compared
+			var keep []string
+			for _, cn := range op.Columns {
+				zero := false
+				for _, r := range op.Rows {
+					if hasZeroUUID(r[cn]) {
+						zero = true
+					}
+				}
+				for _, u := range us {
+					if hasZeroUUID(db.T[t.Name][u][cn]) {
+						zero = true
+					}
+				}
+				if !zero {
+					keep = append(keep, cn)
+				}
+			}
+			if len(keep) != len(op.Columns) {
+				if len(keep) == 0 {
+					keep = []string{"name"}
+				}
+				for i, r := range op.Rows {
+					nr := ref.Row{}
+					for _, cn := range keep {
+						if d, ok := r[cn]; ok {
+							nr[cn] = d
+						} else if len(us) > i {
+							nr[cn] = db.T[t.Name][us[i]][cn]
+						} else {
+							nr[cn] = g.Value(t.Col(cn), db, nil)
+						}
+					}
+					op.Rows[i] = nr
+				}
+				op.Columns = keep
+			}
 		}
 	}
 	return ops
